@@ -162,25 +162,30 @@ Definition round_oracle (sv : sys sidc) (r : reason) (newq : list Z) : bool :=
     end) selected &&
   Nat.eqb (length selected) (length newq).
 
+(* Which of several equally ranked candidates survives depends on map iteration order in the real
+   code, so the trace is validated step by step: the implementation's selection must be one the
+   model allows (same number per pool, only eligible candidates of the validation state), and the
+   model continues from the implementation's choice. *)
 Fixpoint checkR (s : sys sidc) (ops : list (op sidc * list Z)) : bool * bool :=
   match ops with
   | [] => (true, true)
   | (o, newq) :: t =>
-      let s' := step sidc nextc s o in
-      let sv := match o with
-                | ODisrupt m cs ch b1 c1 b2 c2 => snd (disrupt_sel sidc nextc s m cs ch b1 c1 b2 c2)
-                | _ => s
-                end in
-      let pool_of i := match find_node sv i with Some x => n_pool x | None => -1 end in
-      (* compared per pool: see checkV *)
-      let corr := list_eqb Z.eqb (sort_z (map pool_of newq)) (sort_z (map pool_of (new_in_queue s s'))) in
-      let orc :=
-        match o with
-        | ODisrupt m cs ch b1 c1 b2 c2 =>
-            round_oracle (snd (disrupt_sel sidc nextc s m cs ch b1 c1 b2 c2)) (method_reason m) newq
-        | _ => match newq with [] => true | _ => false end
-        end in
-      let '(c, r) := checkR s' t in (corr && c, orc && r)
+      match o with
+      | ODisrupt m cs ch vok b1 c1 b2 c2 =>
+          let '(sel, sv) := disrupt_sel sidc nextc s m cs ch vok b1 c1 b2 c2 in
+          let pool_of i := match find_node sv i with Some x => n_pool x | None => -1 end in
+          let corr :=
+            list_eqb Z.eqb (sort_z (map pool_of newq)) (sort_z (map pool_of (ids sel))) &&
+            forallb (fun i => match find_node sv i with Some x => eligible sv x | None => false end) newq &&
+            nodup_ids newq in
+          let orc := round_oracle sv (method_reason m) newq in
+          let s' := start_command sv (map (fun i => mkCand i (pool_of i) false false false) newq) in
+          let '(c, r) := checkR s' t in (corr && c, orc && r)
+      | _ =>
+          let s' := step sidc nextc s o in
+          let ok := match newq with [] => true | _ => false end in
+          let '(c, r) := checkR s' t in (ok && c, ok && r)
+      end
   end.
 
 Definition check_case (c : case) : list string :=
